@@ -8,7 +8,7 @@ FUZZ_PROPS = ("C01", "C02", "C03", "C04", "C05", "C06", "C07", "C08", "C09", "C1
 # id: (implemented, level, technique, level text, note, design ref)
 T = {
  "C01": (1, "exploration", "property-based testing (rapidcheck): every multiplication route vs. a schoolbook reference model",
-         "generated (route, shape, k/cutoff, pattern, destination) cases compared bit for bit with the model product; factors and padding checked; size mixtures aimed at every regime switch of the small cache configuration",
+         "generated (route, shape, k/cutoff, pattern, destination) cases compared bit for bit with the model product; factors and padding checked; size mixtures aimed at every regime switch of the small cache configuration; both factors as overlapping views of one region; thorough tier also products with all dimensions above 4096",
          "trusts the reference model (self-checked in C19) and the shim's raw-layout accessors; samples the input space"),
  "C02": (1, "exploration", "property-based testing (rapidcheck): echelon routines vs. model Gauss-Jordan (rank, unique RREF, REF validity + row space)",
          "rank-structured generated inputs (rank, pivot set, dependent rows are generated, not hoped for) through all six entry points; REF checked by validity, RREF by equality with the model",
@@ -20,7 +20,7 @@ T = {
          "eight variants, all three size regimes, junk in the unused triangle; unique solution checked by model product",
          "trusts the reference model; samples"),
  "C05": (1, "exploration", "property-based testing (rapidcheck): inverses checked by model products on constructed invertible inputs",
-         "A = Pi*L*U construction is complete for invertible matrices; both products with the result must be the identity",
+         "A = Pi*L*U construction is complete for invertible matrices; both products with the result must be the identity; supplied junk destinations for both inversion routines; every table parameter the triangular inversion admits (0..16)",
          "trusts the reference model; samples"),
  "C06": (1, "exploration", "property-based testing (rapidcheck): solvability verdict vs. model rank test, solutions multiplied back",
          "right-hand sides generated per kind (consistent, one flipped bit, padding-row-only inconsistency, random, zero) for all three shape orders",
@@ -43,7 +43,7 @@ T = {
          ">= 7 (quick) / >= 23 (thorough) configurations incl. random cache triples, each case with two further k / cutoff values; canonical digests must agree everywhere and with the reference model",
          "sanitizer flags and -O1 are the harness's, everything else in the configuration header comes from configure; <= 23 configurations per run"),
  "C13": (1, "exploration", "property-based testing (rapidcheck): swap-sequence semantics in a reference model; exhaustive bit-position pairs and (spot,n) ranges",
-         "statement's semantics executed literally in the model incl. Pi*A / A*Pi for the same Pi and undo by the transposed counterpart",
+         "statement's semantics executed literally in the model incl. Pi*A / A*Pi for the same Pi and undo by the transposed counterpart; permutations identity / single / sparse / random / structured (run exchanges, rotations); rows of more than 65536 words for the bulk column kernel",
          "LAPACK swap form i <= P[i] < length; distinct rows for row addition; trusts the reference model"),
  "C14": (1, "exploration", "stateful model-based testing (rapidcheck-generated command lists against a model of the live set), allocation wrapper for the final balance",
          "histories cross the 64-header block, the 16-block limit, the 16-slot block cache incl. eviction and dirty reuse, fini + init in mid-history, zero-area matrices and zero-area windows; invariants after every command; builds in which any ASan report (double free, free of a live block, use after free) is fatal",
@@ -52,19 +52,19 @@ T = {
          "2..16 threads on thread-private operands in the --enable-thread-safe configuration (header from the repository's configure); a race report terminates the process and is the verdict",
          "schedules are sampled, not enumerated; a race on a path no generated program takes is not seen"),
  "C16": (1, "exploration", "property-based testing (rapidcheck) across OpenMP thread counts and nesting levels, differential against the sequential build, ThreadSanitizer + Archer slice",
-         "every execution equals the reference model; all thread counts give one digest; the shared case list gives the same digests in the sequential build",
+         "every execution equals the reference model; all thread counts give one digest; the shared case list gives the same digests in the sequential build; shapes with more than 512 x T rows (second static chunk per thread), wide and very wide eliminations (work thresholds)",
          "schedules are sampled; Archer judges only the executions that happened"),
  "C17": (1, "exploration", "property-based testing (rapidcheck): observers vs. model predicates and the comparison laws, on owned matrices and windows",
          "near-equal pairs/triples, single-one regions per word class, all four pivot-search paths labelled",
          "mzd_cmp is judged by its laws, not by a particular order; trusts the reference model"),
  "C18": (1, "exploration", "property-based testing (rapidcheck): round trips with an independent reference PNG codec, grammar-based malformed files read in forked children of the fatal-sanitizer build; coverage-guided libFuzzer slice with a semantic oracle in both tiers (20 s x 4 workers quick, 600 s x 8 thorough)",
-         "every bit depth x colour type x interlace x narrow widths, structure-aware mutations with valid CRCs, JCF single-token corruptions; fates classified (NULL / abort / matrix equal to what the file denotes); intact files of an unsupported kind must be rejected",
+         "every bit depth x colour type x interlace x narrow widths, structure-aware mutations with valid CRCs, JCF single-token corruptions; fates classified (NULL / abort / matrix equal to what the file denotes); intact files of an unsupported kind must be rejected; round trips with a dimension above one million",
          "libpng internals are not judged; abort() through libpng's default error path is an accepted rejection"),
  "C19": (1, "exploration", "exhaustive enumeration of the finite domains + property-based testing (rapidcheck) of the table builder and word kernels",
-         "code book k=1..16, all masks, complete single-bit bases of the linear word kernels are enumerated completely; mzd_make_table and random combinations are sampled",
+         "code book k=1..16, all masks, complete single-bit bases of the linear word kernels are enumerated completely; mzd_make_table (rows from owned matrices and from windows) and random combinations are sampled",
          "definitions are stated in the orientation the code uses (bit b of a pattern <-> row r+b); linearity of the word kernels justifies the basis argument"),
  "C20": (1, "fault_enumeration", "exhaustive single-fault injection per scenario instance via -Wl,--wrap allocation wrapper and forked children; scenario sizes partly rapidcheck-generated",
-         "for each of 47 scenarios x size variants (incl. data blocks above 1 MiB / above the cache threshold and > 64 / > 128 live headers) every allocation request index is failed once; required fate SIGABRT with a diagnostic and no sanitizer report",
+         "for each of 49 scenarios x size variants (incl. data blocks above 1 MiB / above the cache threshold, 4-row operands with 4200 / 33000 columns, 70..198 and 1031 live headers, library re-initialisation, the hybrid echelon form's mid-run hand-over) in four configurations (incl. the posix_memalign branch of the allocation primitives) every allocation request index is failed once; required fate SIGABRT with a diagnostic and no sanitizer report",
          "only requests issued from m4ri objects fail (libc/libpng internals are not intercepted); size-0 requests never fail"),
 }
 
